@@ -88,11 +88,45 @@ func (fr *Frame) call(x *ssa.Call, c *ssa.CallCommon, h Heap) Heap {
 				sig = c.Signature()
 			}
 			cpkg := env.pkg
+			callerNames := map[string]bool{}
+			for k := range env.vars {
+				callerNames[k] = true
+			}
 			env.bindSig(sig, callee, c, args)
 			env.pkg = cpkg
+			calleeNames := map[string]bool{}
+			for k, v := range env.vars {
+				if !callerNames[k] {
+					calleeNames[k] = true
+				} else if cp := fr.paramVal(k); cp == nil || cp != v.V {
+					calleeNames[k] = true // rebound by the callee's signature
+				}
+			}
 			blk := fr.curBlock
+			callerParams := map[string]*SVal{}
+			for _, prm := range fr.fn.Params {
+				if pv := fr.vals[prm]; pv != nil {
+					callerParams[prm.Name()] = &SVal{V: pv, T: prm.Type()}
+				}
+			}
 			env.locals = func(name string) *SVal {
-				if _, isParam := env.vars[name]; isParam {
+				// caller_<x>: the caller's own x even when the callee has a parameter of that name
+				if strings.HasPrefix(name, "caller_") {
+					cn := strings.TrimPrefix(name, "caller_")
+					var v *SVal
+					if x != nil {
+						v = fr.localBefore(cn, x, h)
+					} else {
+						v = fr.localAt(cn, blk, h)
+					}
+					if v == nil {
+						v = callerParams[cn]
+					}
+					return v
+				}
+				// the callee's parameter names shadow everything; the caller's own (possibly reassigned)
+				// parameters and locals are read at their current value
+				if calleeNames[name] {
 					return nil
 				}
 				if x != nil {
@@ -835,4 +869,13 @@ func isRecoverOnlyClosure(fn *ssa.Function) bool {
 		}
 	}
 	return true
+}
+
+func (fr *Frame) paramVal(name string) *Val {
+	for _, prm := range fr.fn.Params {
+		if prm.Name() == name {
+			return fr.vals[prm]
+		}
+	}
+	return nil
 }
